@@ -9,6 +9,7 @@ package main
 
 import (
 	"fmt"
+	"go/constant"
 	"go/token"
 	"go/types"
 	"sort"
@@ -1533,6 +1534,7 @@ func c18R3(c *Ctx, fns []*ssa.Function, fields map[string]types.Type) {
 		})
 	}
 	c18R3SingleSource(c, R3, fns)
+	c18PutImpliesSaved(c, fns)
 	// what is ingested: MarshalIndent(content) taken after the auths refresh, behind its success edge
 	found := false
 	for _, fn := range fns {
@@ -1704,6 +1706,163 @@ func c18R3SingleSource(c *Ctx, R3 string, fns []*ssa.Function) {
 		}
 		c.Check(R3, FnName(G)+"|credentials-read-only-from-auths", pos, ok, ifelse(ok, "the entry decoded by Get is read from the auths map in the same call; no second container of entries is consulted",
 			"Get also decodes entries taken from "+strings.Join(bad, ", ")+", a second container that Put/Delete do not clear completely: after a Put/Delete through another form of the key (\"https://host/\" vs host) Get keeps returning the overwritten / deleted credential"))
+	}
+}
+
+// c18PutImpliesSaved: a Put / SetCredentialsStore that reports success has
+// gone through the save of the file: the in-memory maps are not the file (a
+// failed save leaves them ahead of it), so "nothing changed in memory" is no
+// reason to skip the save.  Shapes: the method calls the saver itself on every
+// successful path; or it hands a function literal to a helper that runs it and
+// saves unless the literal reports "unchanged" — then the literal must never
+// report (unchanged, nil).
+func c18PutImpliesSaved(c *Ctx, fns []*ssa.Function) {
+	const R1 = "C18.R1.atomic-replace"
+	// a saver replaces the file on EVERY successful return (a helper that saves only "if changed" is not one)
+	memo := map[*ssa.Function]int{}
+	var savesAlways func(g *ssa.Function, depth int) bool
+	savesAlways = func(g *ssa.Function, depth int) bool {
+		if g == nil || len(g.Blocks) == 0 || fnPkgPath(g) != pkgPath(c18CfgPkg) || depth > 3 || ErrResultIndex(g.Signature) < 0 {
+			return false
+		}
+		if v, ok := memo[g]; ok {
+			return v == 1
+		}
+		memo[g] = 0
+		var through []ssa.CallInstruction
+		for _, call := range Calls(g, func(string) bool { return true }) {
+			if _, isDefer := call.(*ssa.Defer); isDefer {
+				continue
+			}
+			if CalleeName(call) == "os.Rename" || savesAlways(StaticCallee(call), depth+1) {
+				through = append(through, call)
+			}
+		}
+		atoms := c11SuccessAtoms(g)
+		ok := len(through) > 0 && len(atoms) > 0 && c11AllAtomsPass(atoms, func() *cut { return newCut().Calls(through) })
+		if ok {
+			memo[g] = 1
+		}
+		return ok
+	}
+	isSaver := func(g *ssa.Function) bool { return savesAlways(g, 0) }
+	for _, P := range fns {
+		if P.Parent() != nil || P.Object() == nil || !P.Object().Exported() || P.Signature.Recv() == nil || ErrResultIndex(P.Signature) < 0 {
+			continue
+		}
+		// a writer of the in-memory state: stores an entry into the auths map or assigns the creds-store field
+		writes := false
+		for _, f := range append([]*ssa.Function{P}, Anons(P)...) {
+			auths := c11FieldReads(f, c18Cfg+"."+c18FAuths)
+			AllInstrs(f, func(in ssa.Instruction) {
+				switch u := in.(type) {
+				case *ssa.MapUpdate:
+					if auths[u.Map] {
+						writes = true
+					}
+				case *ssa.Store:
+					if fa, ok := u.Addr.(*ssa.FieldAddr); ok && fieldName(fa.X.Type(), fa.Field) == c18Cfg+"."+c18FCreds {
+						writes = true
+					}
+				}
+			})
+		}
+		if !writes {
+			continue
+		}
+		key := FnName(P) + "|success-implies-saved"
+		atoms := c11SuccessAtoms(P)
+		// (1) saves itself
+		var saves []ssa.CallInstruction
+		for _, call := range Calls(P, func(string) bool { return true }) {
+			if _, isDefer := call.(*ssa.Defer); !isDefer && isSaver(StaticCallee(call)) {
+				saves = append(saves, call)
+			}
+		}
+		if len(saves) > 0 {
+			ok := len(atoms) > 0 && c11AllAtomsPass(atoms, func() *cut { return newCut().Calls(saves) })
+			c.Check(R1, key, P.Pos(), ok, ifelse(ok, "every successful return lies behind the call that saves the file",
+				"a path returns nil without saving the file: after an earlier failed save the in-memory entry is ahead of the file, so a Put that is skipped as \"unchanged\" reports success although nothing was written"))
+			continue
+		}
+		// (2) update(mutate)-style helper
+		decided := false
+		for _, call := range Calls(P, func(string) bool { return true }) {
+			H := StaticCallee(call)
+			cv, isCall := call.(*ssa.Call)
+			if H == nil || !isCall || len(H.Blocks) == 0 || fnPkgPath(H) != pkgPath(c18CfgPkg) {
+				continue
+			}
+			for i, a := range cv.Call.Args {
+				mc, isLit := a.(*ssa.MakeClosure)
+				if !isLit || i >= len(H.Params) {
+					continue
+				}
+				L := mc.Fn.(*ssa.Function)
+				// in H: the literal is called; H saves unless it reported "unchanged" (a bool result)
+				var hSaves []ssa.CallInstruction
+				for _, hc := range Calls(H, func(string) bool { return true }) {
+					if _, isDefer := hc.(*ssa.Defer); !isDefer && isSaver(StaticCallee(hc)) {
+						hSaves = append(hSaves, hc)
+					}
+				}
+				if len(hSaves) == 0 {
+					continue
+				}
+				bIdx := -1
+				for k := 0; k < L.Signature.Results().Len(); k++ {
+					if b, ok := L.Signature.Results().At(k).Type().Underlying().(*types.Basic); ok && b.Kind() == types.Bool {
+						bIdx = k
+					}
+				}
+				var unchanged []Edge
+				for _, hc := range Calls(H, func(string) bool { return true }) {
+					if hc.Common().Value != ssa.Value(H.Params[i]) || bIdx < 0 {
+						continue
+					}
+					if bv := ResultOf(hc, bIdx); bv != nil {
+						_, fe := BoolTests(H, Aliases(bv))
+						unchanged = append(unchanged, fe...)
+					}
+					// the mutation's own failure is not a success path either (`if err != nil || !changed { return err }`)
+					if ev := ErrOf(hc); ev != nil {
+						_, nn, _ := NilTests(H, Aliases(ev))
+						unchanged = append(unchanged, nn...)
+					}
+				}
+				hAtoms := c11SuccessAtoms(H)
+				ok := len(atoms) > 0 && c11AllAtomsPass(atoms, func() *cut { return newCut().Instr(cv) }) &&
+					len(hAtoms) > 0 && c11AllAtomsPass(hAtoms, func() *cut { return newCut().Calls(hSaves).Edges(unchanged...) })
+				why := "a successful return is reachable without the save"
+				// the literal never reports (unchanged, nil)
+				eIdx := ErrResultIndex(L.Signature)
+				for _, ret := range Returns(L) {
+					if eIdx >= 0 && ErrNilStatus(ret.Results[eIdx], 0) == NonNil {
+						continue
+					}
+					if eIdx >= 0 {
+						// an error returned on the non-nil side of its own test
+						if _, isConst := ret.Results[eIdx].(*ssa.Const); !isConst {
+							_, nn, _ := NilTests(L, Aliases(ret.Results[eIdx]))
+							if len(nn) > 0 && MustPass(ret, newCut().Edges(nn...)) {
+								continue
+							}
+						}
+					}
+					if bIdx >= 0 {
+						if k, isConst := ret.Results[bIdx].(*ssa.Const); !isConst || k.Value == nil || !constant.BoolVal(k.Value) {
+							ok, why = false, "the mutation can report \"unchanged\" with a nil error, so "+FnName(H)+" returns nil without saving"
+						}
+					}
+				}
+				decided = true
+				c.Check(R1, key, P.Pos(), ok, ifelse(ok, "runs through "+FnName(H)+", which saves unless the mutation reports \"unchanged\"; the mutation always reports a change on success",
+					why+": after an earlier failed save the in-memory entry is ahead of the file, so a Put that is skipped as \"unchanged\" reports success although nothing was written"))
+			}
+		}
+		if !decided {
+			c.Undecided(R1, key, P.Pos(), "this method updates the in-memory state but neither calls the saver itself nor hands a function literal to a helper that saves; shape not recognised")
+		}
 	}
 }
 
@@ -1997,6 +2156,10 @@ var c18Mutants = []Mutant{
 		Old:    "\t\tif err := tempFile.Close(); err != nil && ingestErr == nil {\n\t\t\tingestErr = fmt.Errorf(\"failed to close ingest file: %w\", err)\n\t\t}\n",
 		New:    "",
 		Expect: "C18.R1.atomic-replace|~/registry/remote/credentials/internal/ioutil.Ingest|close-error-captured"},
+	{Name: "put-skipped-when-cache-equal", File: "registry/remote/credentials/internal/config/config.go",
+		Old:    "\tcfg.authsCache[serverAddress] = authCfgBytes\n\treturn cfg.saveFile()",
+		New:    "\tif bytes.Equal(cfg.authsCache[serverAddress], authCfgBytes) {\n\t\treturn nil\n\t}\n\tcfg.authsCache[serverAddress] = authCfgBytes\n\treturn cfg.saveFile()",
+		Expect: "C18.R1.atomic-replace|(*~/registry/remote/credentials/internal/config.Config).PutCredential|success-implies-saved"},
 	{Name: "copy-error-swallowed", File: "registry/remote/credentials/internal/ioutil/ioutil.go",
 		Old:    "\tif _, err := io.Copy(tempFile, content); err != nil {\n\t\treturn \"\", fmt.Errorf(\"failed to ingest: %w\", err)\n\t}\n",
 		New:    "\tio.Copy(tempFile, content)\n",
